@@ -401,10 +401,59 @@ def check_top_level(ctx, lib, rule="node-vocabulary"):
         ctx.check(got == allowed and not opaque, rule, f"{fn}:returns", f"{fn} returns exactly the node kinds {sorted(allowed)} (found {sorted(got)})", b.span)
 
 
+def check_arm_results(ctx, lib, rule="node-vocabulary"):
+    """What nud / led hand back: in every token arm each Ok value is a node built in that arm or the
+    result of a parser routine called in it — never the left operand itself, a part of it, or a folded constant."""
+    from .. import rettags as RT
+    n = 0
+    for fn in ("led", "nud"):
+        b = ctx.fn(P + fn, rule=rule)
+        if b is None:
+            continue
+        o = Origins(b, lib)
+        br = Branches(b, o)
+        blk, ve = first_discr_switch(b, br, TOKEN)
+        if ve is None:
+            ctx.missing(rule, f"{fn}:results", f"{fn} does not dispatch on the consumed token")
+            continue
+        oks, opaque = RT.ok_values(b)
+        covered = set()
+        for variant, tgt in sorted(ve["edges"].items()):
+            e = (blk, tgt)
+            blocks = {x for x in region(b, tgt) if edge_dominates(b, e, x)}
+            bad = []
+            cnt = 0
+            for ob, op in oks:
+                if ob not in blocks:
+                    continue
+                covered.add(ob)
+                cnt += 1
+                for t in o.of_operand(op):
+                    if t[0] == "agg" and t[1].startswith(AST + "::"):
+                        continue
+                    if t[0] == "call" and t[1].startswith(P):
+                        continue
+                    bad.append(fmt_terms([t])[:60])
+            for ob, t in opaque:
+                if ob in blocks:
+                    covered.add(ob)
+                    if isinstance(t, dict) and t.get("callee", "").startswith(P):
+                        cnt += 1
+                    else:
+                        bad.append("opaque:" + str(t.get("callee") if isinstance(t, dict) else t)[:50])
+            n += 1
+            ctx.check(not bad, rule, f"{fn}:{variant}:result",
+                      f"{fn}/{variant}: every Ok value is a node built in this arm or a sub-parser's result ({cnt} result sites{'; found ' + ', '.join(bad) if bad else ''})", b.span)
+        stray = [ob for ob, _ in oks if ob not in covered] + [ob for ob, _ in opaque if ob not in covered]
+        ctx.check(not stray, rule, f"{fn}:results-in-arms", f"{fn}: every result is produced inside a token arm ({len(stray)} outside)", b.span)
+    ctx.floor(rule, n, 20, "nud/led arm result rows")
+
+
 def check_nodes(ctx, lib):
     rule = "node-vocabulary"
     n = 0
     check_top_level(ctx, lib, rule)
+    ctx.attempt("check_arm_results", check_arm_results, ctx, lib, rule)
 
     def body_aggs(fn):
         b = ctx.fn(P + fn, rule=rule)
